@@ -11,6 +11,7 @@ import (
 	"github.com/mimecast/dtail/internal/io/dlog"
 	"github.com/mimecast/dtail/internal/io/pool"
 	"github.com/mimecast/dtail/internal/protocol"
+	"github.com/mimecast/dtail/internal/verifhook"
 )
 
 // Result returns a nicely formated result of the query from the group set.
@@ -163,15 +164,18 @@ func (*GroupSet) writeQueryFile(query *Query) error {
 	tmpQueryFile := fmt.Sprintf("%s.tmp", queryFile)
 	dlog.Common.Debug("Writing query file", queryFile)
 
+	verifhook.At("outfile.step", "open", tmpQueryFile)
 	fd, err := os.OpenFile(tmpQueryFile, os.O_CREATE|os.O_WRONLY|os.O_TRUNC, 0666)
 	if err != nil {
 		return err
 	}
 	defer fd.Close()
 
+	verifhook.At("outfile.step", "write", tmpQueryFile)
 	if _, err := fd.WriteString(query.RawQuery); err != nil {
 		return err
 	}
+	verifhook.At("outfile.step", "rename", queryFile)
 	return os.Rename(tmpQueryFile, queryFile)
 }
 
@@ -211,10 +215,12 @@ func (g *GroupSet) getOutfileFD(query *Query) (*os.File, error) {
 	if !query.Outfile.AppendMode {
 		dlog.Common.Info("Writing to outfile", query.Outfile.FilePath)
 		tmpOutfile := fmt.Sprintf("%s.tmp", query.Outfile.FilePath)
+		verifhook.At("outfile.step", "open", tmpOutfile)
 		return os.OpenFile(tmpOutfile, os.O_CREATE|os.O_WRONLY|os.O_TRUNC, 0666)
 	}
 
 	dlog.Common.Info("Appending to outfile", query.Outfile.FilePath)
+	verifhook.At("outfile.step", "open", query.Outfile.FilePath)
 	return os.OpenFile(query.Outfile.FilePath, os.O_CREATE|os.O_WRONLY|os.O_APPEND, 0666)
 }
 
@@ -233,16 +239,19 @@ func (g *GroupSet) resultWriteUnformatted(query *Query, rows []result, fd *os.Fi
 			break
 		}
 		for j, value := range r.values {
+			verifhook.At("outfile.step", "write", fd.Name())
 			if _, err := fd.WriteString(value); err != nil {
 				return err
 			}
 			if j == lastColumn {
 				continue
 			}
+			verifhook.At("outfile.step", "write", fd.Name())
 			if _, err := fd.WriteString(protocol.CSVDelimiter); err != nil {
 				return err
 			}
 		}
+		verifhook.At("outfile.step", "write", fd.Name())
 		if _, err := fd.WriteString("\n"); err != nil {
 			return err
 		}
@@ -250,6 +259,7 @@ func (g *GroupSet) resultWriteUnformatted(query *Query, rows []result, fd *os.Fi
 
 	if !query.Outfile.AppendMode && finalResult {
 		tmpOutfile := fmt.Sprintf("%s.tmp", query.Outfile.FilePath)
+		verifhook.At("outfile.step", "rename", query.Outfile.FilePath)
 		if err := os.Rename(tmpOutfile, query.Outfile.FilePath); err != nil {
 			os.Remove(tmpOutfile)
 			return err
@@ -261,16 +271,19 @@ func (g *GroupSet) resultWriteUnformatted(query *Query, rows []result, fd *os.Fi
 
 func (g *GroupSet) resultWriteUnformattedHeader(query *Query, fd *os.File, lastColumn int) (err error) {
 	for i, sc := range query.Select {
+		verifhook.At("outfile.step", "write", fd.Name())
 		if _, err = fd.WriteString(sc.FieldStorage); err != nil {
 			return
 		}
 		if i == lastColumn {
 			continue
 		}
+		verifhook.At("outfile.step", "write", fd.Name())
 		if _, err = fd.WriteString(protocol.CSVDelimiter); err != nil {
 			return
 		}
 	}
+	verifhook.At("outfile.step", "write", fd.Name())
 	_, err = fd.WriteString("\n")
 	return
 }
